@@ -495,11 +495,15 @@ pub fn run(tier: Tier) -> ! {
 
     // Phase 1: exhaustive boundary pairs (third operand cycles through B).
     let nb = bset.len();
+    let micro = run.micro();
+    // (micro tier: a 1/stride^2 lattice of the boundary pairs)
+    let stride = if micro { (nb / 24).max(1) } else { 1 };
     let accs: Vec<Acc> = (0..nb)
         .into_par_iter()
+        .filter(|i| i % stride == 0)
         .map(|i| {
             let mut acc = Acc::default();
-            for j in 0..nb {
+            for j in (0..nb).filter(|j| (j + i / stride) % stride == 0) {
                 let c = bset[(i * 7 + j * 13) % nb];
                 scalar_ops(&mut acc, bset[i], bset[j], c);
             }
@@ -515,8 +519,8 @@ pub fn run(tier: Tier) -> ! {
     let bh1 = plonky2_util::verif_hooks::BRANCH_HINTS.load(Ordering::Relaxed);
 
     // Phase 2: structured-random tuples.
-    let n_random: u64 = run.pick(20_000_000, 400_000_000);
-    let chunk: u64 = 50_000;
+    let n_random: u64 = run.n(640, 20_000_000, 400_000_000);
+    let chunk: u64 = if micro { 40 } else { 50_000 };
     let seed = run.seed;
     let accs: Vec<(Acc, u64)> = (0..n_random / chunk)
         .into_par_iter()
@@ -547,7 +551,7 @@ pub fn run(tier: Tier) -> ! {
     {
         let mut rng = run.rng(14_002, 0);
         let mut acc = Acc::default();
-        for _ in 0..run.pick(200_000, 5_000_000) {
+        for _ in 0..run.n(120, 200_000, 5_000_000) {
             // a + b with both in [2^64 - 2^32, 2^64): double overflow iff low words sum past 2^32
             let a = u64::MAX - rng.gen_range(0..=EPS);
             let b = u64::MAX - rng.gen_range(0..=EPS);
@@ -567,7 +571,7 @@ pub fn run(tier: Tier) -> ! {
 
     // Phase 3: inverse / exp.
     {
-        let n = run.pick(20_000u64, 1_000_000);
+        let n = run.n(64, 20_000, 1_000_000);
         let accs: Vec<Acc> = (0..16u64)
             .into_par_iter()
             .map(|t| {
@@ -590,7 +594,10 @@ pub fn run(tier: Tier) -> ! {
         let mut acc = Acc::default();
         let mut lens: Vec<usize> = (0..=18).collect();
         lens.extend([31, 32, 33, 63, 64, 65, 100, 257]);
-        for rep in 0..run.pick(30, 600) {
+        if micro {
+            lens.retain(|&l| l <= 9 || l == 16 || l == 17 || l == 33);
+        }
+        for rep in 0..run.n(1, 30, 600) {
             for &l in &lens {
                 let xs: Vec<u64> = (0..l)
                     .map(|_| loop {
@@ -613,12 +620,15 @@ pub fn run(tier: Tier) -> ! {
     // Phase 4: extensions.
     {
         let mut acc = Acc::default();
-        ext_constants::<2>(&mut acc, "quadratic");
-        ext_constants::<4>(&mut acc, "quartic");
-        ext_constants::<5>(&mut acc, "quintic");
+        if !micro {
+            // (order computations by square-and-multiply over 128..320-bit exponents: native tiers only)
+            ext_constants::<2>(&mut acc, "quadratic");
+            ext_constants::<4>(&mut acc, "quartic");
+            ext_constants::<5>(&mut acc, "quintic");
+        }
         total.merge(acc);
-        let n = run.pick(60_000u64, 3_000_000);
-        let heavy_every = 50u64;
+        let n = run.n(48, 60_000, 3_000_000);
+        let heavy_every = if micro { 3 } else { 50u64 };
         let accs: Vec<Acc> = (0..16u64)
             .into_par_iter()
             .map(|t| {
@@ -659,7 +669,7 @@ pub fn run(tier: Tier) -> ! {
         type PF = <F as Packable>::Packing;
         let w = <PF as PackedField>::WIDTH;
         run.set_extra("packing_width", json!(w));
-        let n = run.pick(100_000u64, 5_000_000);
+        let n = run.n(160, 100_000, 5_000_000);
         let accs: Vec<Acc> = (0..16u64)
             .into_par_iter()
             .map(|t| {
@@ -693,11 +703,12 @@ pub fn run(tier: Tier) -> ! {
         run.violation("field.false_assume", 0, json!({"false_assumes": false_assumes}));
     }
     for k in ["add.double_overflow", "sub.double_underflow", "reduce128.borrow", "noncanonical.lhs"] {
-        if total.hits.get(k).copied().unwrap_or(0) < 100 {
-            run.inconclusive(&format!("rare path {k} reached fewer than 100 times"));
+        let need = if micro { 3 } else { 100 };
+        if total.hits.get(k).copied().unwrap_or(0) < need {
+            run.inconclusive(&format!("rare path {k} reached fewer than {need} times"));
         }
     }
-    if bh3 - bh0 < 100 {
+    if bh3 - bh0 < if micro { 3 } else { 100 } {
         run.inconclusive("H1: branch_hint executions < 100 — rare branches not observed");
     }
     run.evals(total.evals);
